@@ -181,18 +181,11 @@ def o_c02(run):
                         # counter: +1 iff a snapshot exists
                         if d['snap'] and d2['snap'] and (d2['snap'][0] != d['snap'][0] or int(d2['snap'][2]) != int(d['snap'][2]) + 1):
                             out.append(fail('C02/C12: the versions-since counter is incremented by exactly one', r, f'{d["snap"]} -> {d2["snap"]}'))
-                    # other clients untouched
-                    for oc, ods in g.dumps.items():
-                        if oc != c and oc in pd and pd[oc] != ods:
-                            out.append(fail('C02/C09: nothing about other clients changes', r, f'client {oc} changed'))
             if o[0] == 'conflict':
                 last_av = [x for x in g.ops if x.op == 'av'][-1]
                 if last_av is r:
-                    for oc, ods in g.dumps.items():
-                        if oc in pd and pd[oc] != ods:
-                            out.append(fail('C02: when rejected nothing about the client changes', r, f'client {oc}: {pd[oc][:120]} -> {ods[:120]}'))
-                    if g.raw is not None and praw is not None and g.raw != praw:
-                        out.append(fail('C02: when rejected nothing changes', r, 'raw tables changed'))
+                    if c in g.dumps and c in pd and pd[c] != g.dumps[c]:
+                        out.append(fail('C02: when rejected nothing about the client changes', r, f'client {c}: {pd[c][:120]} -> {g.dumps[c][:120]}'))
     return out
 
 # --------------------------------------------------------------------------------------------- C07 / C06 (versions)
